@@ -158,14 +158,14 @@ class Kroupa:
     def _mom0(self, xmin, xmax, a):
         """ First moment """
         if a == 1:
-            return np.log(xmin) - np.log(xmax)
+            return np.log(xmax) - np.log(xmin)
         else:
             return (pow(xmax, 1.0 - a) - pow(xmin, 1.0 - a)) / (1.0 - a)
 
     def _mom1(self, xmin, xmax, a):
         """ Second moment """
-        if a == 0:
-            return np.log(xmin) - np.log(xmax)
+        if a == 2:
+            return np.log(xmax) - np.log(xmin)
         else:
             return (pow(xmax, 2.0 - a) - pow(xmin, 2.0 - a)) / (2.0 - a)
 
@@ -182,7 +182,9 @@ class Kroupa:
             mass (float or array): sampled mass values.
         """
         if slope == 1:
+            # logarithmic case: the inverse CDF is exponential in x
             A = np.log(xmax) - np.log(xmin)
+            return xmin * np.exp(x * A)
         else:
             A = (1.0 / (1 - slope)) * (pow(xmax, 1.0 - slope) - pow(xmin, 1 - slope))
         mass = (1.0 - slope) * x * A + xmin ** (1.0 - slope)
